@@ -156,9 +156,18 @@ def proj_cases(draw):
     else:
         desc = dict(kind=kind, t=draw(st.sampled_from([0.3, 0.785, 1.2, -0.5])))
     holes = []
-    if draw(st.booleans()) and nr >= 4 and nc >= 4:
+    hole_kind = draw(st.sampled_from(["none", "interior", "corner", "edge"]))
+    if hole_kind == "interior" and nr >= 4 and nc >= 4:
         holes = draw(st.lists(st.tuples(st.integers(1, nr - 2), st.integers(1, nc - 2)), min_size=1, max_size=3, unique=True))
         holes = [list(h) for h in holes]
+    elif hole_kind == "corner" and nr >= 4 and nc >= 4:
+        # a block of missing values covering a corner of the grid: the hull of the data loses that corner
+        hr, hc = draw(st.integers(1, 2)), draw(st.integers(1, 2))
+        top, right = draw(st.booleans()), draw(st.booleans())
+        holes = [[(nr - 1 - i) if top else i, (nc - 1 - j) if right else j] for i in range(hr) for j in range(hc)]
+    elif hole_kind == "edge" and nr >= 4 and nc >= 4:
+        j = draw(st.integers(1, nc - 2))
+        holes = [[0, j]] if draw(st.booleans()) else [[draw(st.integers(1, nr - 2)), nc - 1]]
     return dict(nr=nr, nc=nc, w=w, s=s, de=de, dn=dn, projection=desc, holes=holes, method=draw(st.sampled_from(["nearest", "linear", "cubic"])),
                 antialias=draw(st.booleans()), name=draw(st.sampled_from([None, "topo", "scalars"])), seed=draw(st.integers(0, 10**6)),
                 kw=draw(st.sampled_from(["none", "none", "shape", "spacing", "region"])), field=draw(st.sampled_from(["random", "affine"])))
